@@ -118,6 +118,23 @@ Example C10_via_writer_encoded_word_refuted :
   = Ok (bs "=?UTF-8?q?=C3=A4.txt?=").
 Proof. exact via_writer_encoded_refuted. Qed.
 
+(* ---------- the transfer encoding of a parsed body part is local to the part ----------
+   Whatever was parsed before (any two predecessor states, drained or not), a body part that is appended
+   gets the encoding [part_enc_of_hdr] computes from the part's OWN header: its Content-Transfer-Encoding,
+   or quoted-printable when the stdlib multipart reader has stripped that header. *)
+Theorem C10_part_encoding_local : forall fnof legacy p d1 d2 s1 s2 s1' s2' x1 x2,
+  hvals (e_hdr p) hdr_content_disposition = [] ->
+  body_phase fnof legacy p d1 s1 = Ok s1' -> body_phase fnof legacy p d2 s2 = Ok s2' ->
+  m_parts s1' = m_parts s1 ++ [x1] -> m_parts s2' = m_parts s2 ++ [x2] ->
+  p_enc x1 = p_enc x2 /\ part_enc_of_hdr (e_hdr p) = Some (p_enc x1).
+Proof. exact part_enc_independent. Qed.
+Print Assumptions C10_part_encoding_local.
+
+Theorem C10_part_encoding_default_qp : forall h : hdr,
+  hvals h hdr_content_transfer_enc = [] -> part_enc_of_hdr h = Some enc_qp.
+Proof. exact part_enc_default_qp. Qed.
+Print Assumptions C10_part_encoding_default_qp.
+
 (* non-vacuity of (A) *)
 Example C10_example :
   exists st, parse_eml_fixed nested_example = Ok st /\
